@@ -265,6 +265,9 @@ class FitYamlReader(YamlReaderMixin, FitDReprBase):
                 _fit_object.limit_parameter(_par, _low, _high)
 
         _fit_results = yaml_doc.pop("fit_results", None)
+        if _fit_type == "custom" and _fit_results is not None and _fit_results.get("parameter_values", None) is not None:
+            # there is no parametric model that carries the parameter values of a custom fit
+            _fit_object.set_all_parameter_values(list(_fit_results["parameter_values"]))
         _fit_object._loaded_result_dict = to_numpy_arrays(_fit_results)
         return _fit_object, yaml_doc
 
